@@ -583,7 +583,15 @@ class MarkdownNormalizer(Renderer):
 
         # Preserve code content without reformatting.
         code_child = cast(inline.RawText, element.children[0])
-        code_content = code_child.children.rstrip("\n")
+        code_content = code_child.children
+        if isinstance(element, block.FencedCode):
+            # Every line between the fences is content, blank lines at the end too:
+            # only the terminator of the last line goes.
+            code_lines = code_content.split("\n")
+            if code_lines[-1] == "":
+                code_lines.pop()
+        else:
+            code_lines = code_content.rstrip("\n").split("\n")
         lang = element.lang if isinstance(element, block.FencedCode) else ""
         extra = element.extra if isinstance(element, block.FencedCode) else ""
         extra_text = f" {extra}" if extra else ""
@@ -612,7 +620,8 @@ class MarkdownNormalizer(Renderer):
         # Don't add prefix to empty lines to avoid trailing whitespace.
         # Use rstrip() to preserve structural prefixes like ">" for blockquotes.
         empty_line_prefix = self._second_prefix.rstrip()
-        for line in code_content.splitlines():
+        # (Not `splitlines()`: only LF ends a line of code.)
+        for line in code_lines:
             if line:
                 lines.append(f"{self._second_prefix}{line}")
             else:
